@@ -21,6 +21,7 @@ import (
 	"fmt"
 	"hash"
 	"io"
+	"math"
 	"math/big"
 	"math/rand"
 	"strconv"
@@ -516,6 +517,13 @@ func OidFromString(s string) (asn1.ObjectIdentifier, error) {
 		n, err := strconv.Atoi(number)
 		if err != nil {
 			return nil, err
+		}
+
+		//encoding/asn1 writes larger arcs but refuses to read them back
+		//("base 128 integer too large"), which would leave us with
+		//certificates we can't import anymore
+		if n < 0 || n > math.MaxInt32 {
+			return nil, fmt.Errorf("cert: oid arc %v is out of range (0-%d)", number, math.MaxInt32)
 		}
 
 		oid[i] = n
